@@ -1191,6 +1191,79 @@ def corpus_scenarios():
     return S
 
 
+def shape_vocabulary():
+    """Every shape of element the negotiation handlers look at, including the ones missing an optional child,
+    attribute or text (deterministic; used by the stage x shape family)."""
+    V = [features(), features(False, []), features(True, ["PLAIN"]), features(False, ["SCRAM-SHA-1", "DIGEST-MD5"]),
+         features(bind=True), features(bind=True, session="req", sm=True), features(zlib=True), features(sm=True),
+         simple("tls", "proceed"), simple("tls", "failure"), simple("sasl", "success"), simple("sasl", "failure"), simple("sasl", "other"),
+         simple("compress", "compressed"), simple("compress", "failure"), simple("sm", "other"), simple("other", "other")]
+    V += [challenge(k) for k in ("digest_ok", "digest_nononce", "scram_ok", "scram_bad", "notb64", "empty")]
+    for eid in ("bind", "session", "auth", "other", "none"):
+        for typ in ("result", "error", "none"):
+            V.append(iq(eid, typ))
+    V += [iq("bind", "result", "bindjid"), iq("bind", "result", "bind"), iq("bind", "error", "bind"), iq("session", "result", "bindjid"),
+          iq("bind", "result", "bindjid", name="message"), iq("bind", "result", None, extra_child_ns="sm")]
+    for r in (False, True):
+        for i in (False, True):
+            V.append(sm_elem("enabled", r, i))
+    for pv in (None, True, False):
+        for h in (None, 0, 2, "bad"):
+            V.append(sm_elem("resumed", previd=pv, h=h))
+    for c in CAUSES:
+        for h in (None, 0, 3, "bad"):
+            V.append(sm_elem("failed", cause=c, h=h))
+    V += [sm_elem("r"), sm_elem("a"), sm_elem("a", h=0), sm_elem("a", h=7), sm_elem("a", h="bad")]
+    V += [Elem("component", "handshake", xml="<handshake xmlns='jabber:component:accept'/>"),
+          Elem("client", "handshake", xml="<handshake xmlns='jabber:client'/>")]
+    V += [stream_error(None, False, False), stream_error(None, True, False), stream_error(2, False, False), stream_error(12, True, False),
+          stream_error(empty=True)]
+    V += [iq("none", "none", name="message"), "z", "g", "h1", "h0"]
+    return V
+
+
+def stage_sessions():
+    """Conforming sessions (flags, connect kind, set-up ops, server steps) whose every stage is a point where some handler waits."""
+    S = []
+    S.append(("plain", 0, "client", [], happy_client(tls=False, session="req", sm=True)))
+    scram = [["h1"], [features(True, ["SCRAM-SHA-1", "PLAIN"])], [PROCEED], ["h1"], [features(False, ["SCRAM-SHA-1", "PLAIN"])], [challenge("scram_ok")],
+             [SUCCESS], ["h1"], [features(bind=True, sm=True)], [iq("bind", "result", "bindjid")], [sm_elem("enabled", True, True)]]
+    S.append(("scram-tls", 0, "client", [], scram))
+    digest = [["h1"], [features(False, ["DIGEST-MD5"])], [challenge("digest_ok")], [challenge("digest_ok")], [SUCCESS], ["h1"],
+              [features(bind=True)], [iq("bind", "result", "bindjid")]]
+    S.append(("digest", 0, "client", [], digest))
+    S.append(("zlib", 64, "client", [], happy_client(tls=False, sm=True, zlib=True)))
+    S.append(("legacy", 16, "client", [], [["h1"], [features(False, [])], [iq("auth", "result")]]))
+    S.append(("component", 0, "component", [], [["h1"], [Elem("component", "handshake", xml="<handshake xmlns='jabber:component:accept'/>")]]))
+    # second connection of an object that holds a resumable session: the client answers the features with <resume/>
+    first = ([("connect", "client", ["accept"]), ("run", None)] + runs(*happy_client(tls=False)) +
+             [("send",), ("run", None), ("run", "reset"), ("run", None)])
+    S.append(("resume", 0, "client", first, [["h1"], [features(False, ["PLAIN"])], [SUCCESS], ["h1"], [features(bind=True, sm=True)],
+                                             [sm_elem("resumed", previd=True, h=1)]]))
+    return S
+
+
+def stage_shape_scenarios(rng, thorough=False):
+    """C01: every shape of the vocabulary at every stage of every session (the step the server would have sent is
+    replaced by the shape, the rest of the conforming script follows, then the object is reconnected and released).
+    The quick tier takes every shape at every stage of the plain and resume sessions and a rotating third elsewhere."""
+    V = shape_vocabulary()
+    out = []
+    for name, fl, kind, setup, steps in stage_sessions():
+        for k in range(len(steps) + 1):
+            for j, shape in enumerate(V):
+                if not thorough and name not in ("plain", "resume") and (j + k) % 3 != 0:
+                    continue
+                ops = base_ops(flags=fl, user=(1, 1000)) + list(setup) + [("connect", kind, ["accept"]), ("run", None)] + runs(*steps[:k])
+                ops += [("run", ("items", [shape])), ("run", None), ("is",)]
+                ops += runs(*steps[k + 1:k + 3])
+                ops += [("send",), ("run", None), ("is",), ("run", "close"), ("run", None), ("is",)]
+                # the object must be reusable
+                ops += [("connect", kind, ["accept"]), ("run", None)] + runs(["h1"]) + [("is",), ("run", "close"), ("run", None), ("release",)]
+                out.append(Scenario(ops, "shape:%s:%d:%s" % (name, k, shape if isinstance(shape, str) else getattr(shape, "kind", None) or shape.tok())))
+    return out
+
+
 def deadline_scenarios(rng, thorough=False):
     """Silence at a stage that has a deadline, with clock steps around it (C13).  Every scenario carries
     `expect = (deadline_ms, strict, give-up tokens)`: everything before the silence happens at one instant, so the
@@ -1254,6 +1327,20 @@ def deadline_scenarios(rng, thorough=False):
         sc = Scenario(ops, "deadline:close:%s" % "+".join(map(str, delta)))
         sc.expect = (2000, "same", ("E:disconnect",), mark)
         S.append(sc)
+    # graceful close begun before the negotiation is complete (by the user, or by the library after a refusal)
+    pres = [("user-early", runs(["h1"]) + [("disc",), ("run", None)]),
+            ("sasl-refused", runs(["h1"], [features(False, ["PLAIN"])], [simple("sasl", "failure")])),
+            ("bind-refused", runs(*(happy_client(tls=False, sm=False)[:5] + [[iq("bind", "error")]])))]
+    for name, pre in pres:
+        for delta in ((1999, 1, 1), (2000, 1), (2001, 1), (1000, 999, 1, 1), (60000,)):
+            ops = base_ops() + [("connect", "client", ["accept"]), ("run", None)] + pre
+            mark = len(ops)
+            for dt in delta:
+                ops += [("clock", dt), ("run", None), ("is",)]
+            ops += [("release",)]
+            sc = Scenario(ops, "deadline:close-%s:%s" % (name, "+".join(map(str, delta))))
+            sc.expect = (2000, "same", ("E:disconnect",), mark)
+            S.append(sc)
     # a second disconnect request while the 2 s wait is pending does not extend it
     for first in (1500, 1999):
         for delta in ((1999 - first, 1, 1), (2000 - first, 1), (2001 - first, 1), (3000,)):
@@ -1375,9 +1462,10 @@ def run_check(chk, pid, families, n_random):
     known = {}
     for lab, rs in by.items():
         judge(chk, pid, rs, lab)
-        if pid == "C13":
+        if pid in ("C13", "C01"):
             for sc, toks, info, mt in rs:
-                if getattr(sc, "expect", None) and not info["crash"]:
+                # C01 looks only at the connections the client has given up on: they must end (not stay wedged)
+                if getattr(sc, "expect", None) and not info["crash"] and (pid == "C13" or sc.label.startswith("deadline:close")):
                     judge_deadline(chk, sc, toks)
     for k in range(0, len(results), max(1, len(results) // 6)):
         sc, toks, info, mt = results[k]
